@@ -377,7 +377,51 @@ def check_n2e(m, rows, affine=None, one_d=False, int_dtype=False, form=None, by_
                 fails.append(('n2e:affine-at-centroid', f'element {e}: affine field not reproduced at the vertex centroid',
                               {'element': e, 'expected': [float(u) for u in atc], 'got': r[k].tolist()}))
                 break
+    if not fails and not one_d:
+        fails += n2e_option_combinations(fd, m, arg, rows, ids, affine, tolr)
     return fails, dict(zip(ids, r.tolist())), None
+
+
+def n2e_option_combinations(fd, m, arg, rows, ids, affine, tolr):
+    """the other keyword combinations of convert_nodal2elemental on the same object and argument (round 6, seeded C14-11):
+    calc_average=True together with ravel=True is still the per-element mean of the element's own nodes, component by component
+    (constants, bounds and affine fields at the vertex centroid are statements about THAT array); without calc_average the result
+    is the gather of the own nodes' rows in connectivity order, `ravel=True` flattening each element's block"""
+    fails = []
+    width = len(rows[0])
+    try:
+        r2 = np.asarray(G.quiet(fd.convert_nodal2elemental, arg, calc_average=True, ravel=True), float)
+    except Exception as e:  # noqa
+        return [('n2e:raises:calc_average+ravel', f'convert_nodal2elemental(calc_average=True, ravel=True) raised {type(e).__name__}: {e}'[:200],
+                 {'exception': type(e).__name__})]
+    if r2.ndim != 2:
+        r2 = r2.reshape(len(r2), -1) if r2.ndim > 2 else r2.reshape(-1, 1)
+    fails += n2e_laws(m, ids, r2, rows, affine, 'calc_average=True, ravel=True', tol=tolr)
+    conn = {e: c for e, _, c in flat_elems(m)}
+    if not fails and len({len(c) for c in conn.values()}) == 1:
+        val = {i: [float(v) for v in rows[k]] for k, (i, _) in enumerate(m['nodes'])}
+        sc = max([1.0] + [abs(float(v)) for row in rows for v in row])
+        for rav in (False, True):
+            try:
+                g = np.asarray(G.quiet(fd.convert_nodal2elemental, arg, ravel=rav), float)
+            except Exception as e:  # noqa
+                fails.append((f'n2e:raises:gather:ravel={rav}', f'convert_nodal2elemental(ravel={rav}) raised {type(e).__name__}: {e}'[:200],
+                              {'exception': type(e).__name__}))
+                continue
+            npe = len(next(iter(conn.values())))
+            want_shape = (len(ids), npe * width) if rav else (len(ids), npe, width)
+            if g.shape != want_shape:
+                fails.append(('n2e:gather:shape', f'convert_nodal2elemental(ravel={rav}): shape {g.shape}, expected {want_shape}',
+                              {'shape': list(g.shape), 'ravel': rav}))
+                continue
+            g = g.reshape(len(ids), npe, width)
+            for k, e in enumerate(ids):
+                want = np.array([val[n] for n in conn[e]])
+                if not np.all(np.abs(g[k] - want) <= tolr * sc):
+                    fails.append(('n2e:gather:own-nodes-in-order', f'convert_nodal2elemental(ravel={rav}): element {e} does not hold the rows of '
+                                  'its own nodes in connectivity order', {'element': e, 'expected': want.tolist(), 'got': g[k].tolist(), 'ravel': rav}))
+                    break
+    return fails
 
 
 def tie_n2e(ctx, m, rows, real, case, rtol=None):
@@ -404,13 +448,14 @@ def tie_n2e(ctx, m, rows, real, case, rtol=None):
 HOW_OVERWRITE = ['overwrite', 'overwrite', 'overwrite-with-ids', 'set_attribute_data']
 
 
-def n2e_laws(m, ids, r, rows, affine, when):
+def n2e_laws(m, ids, r, rows, affine, when, tol=None):
     """mean of own nodes / affine at the vertex centroid for the result rows `r` (element ids `ids`) of field `rows`"""
     width = len(rows[0])
     val = {i: rows[k] for k, (i, _) in enumerate(m['nodes'])}
     pos = dict(m['nodes'])
     sc = max([1.0] + [abs(float(v)) for row in rows for v in row])
     conn = {e: c for e, _, c in flat_elems(m)}
+    TOL_ = TOL if tol is None else tol
     fails = []
     if len(r) != len(ids) or r.shape[1] != width:
         return [('n2e:shape', f'{when}: result has shape {r.shape} for {len(ids)} elements and a field of width {width}',
@@ -418,7 +463,7 @@ def n2e_laws(m, ids, r, rows, affine, when):
     for k, e in enumerate(ids):
         c = conn[e]
         want = [sum(val[n][w] for n in c) / len(c) for w in range(width)]
-        if not all(abs(float(a) - b) <= TOL * sc for a, b in zip(want, r[k])):
+        if not all(abs(float(a) - b) <= TOL_ * sc for a, b in zip(want, r[k])):
             fails.append(('n2e:mean-of-own-nodes', f'element {e}: value is not the mean of its own nodes\' (current) values ({when})',
                           {'element': e, 'expected': [float(a) for a in want], 'got': r[k].tolist(), 'when': when}))
             break
@@ -426,7 +471,7 @@ def n2e_laws(m, ids, r, rows, affine, when):
             a, b = affine
             g = [sum(pos[n][j] for n in c) / len(c) for j in range(3)]
             atc = [sum(a[w][j] * g[j] for j in range(3)) + b[w] for w in range(width)]
-            if not all(abs(float(u) - v) <= TOL * sc for u, v in zip(atc, r[k])):
+            if not all(abs(float(u) - v) <= TOL_ * sc for u, v in zip(atc, r[k])):
                 fails.append(('n2e:affine-at-centroid', f'element {e}: affine field not reproduced at the vertex centroid ({when})',
                               {'element': e, 'expected': [float(u) for u in atc], 'got': r[k].tolist(), 'when': when}))
                 break
